@@ -38,6 +38,7 @@ TABLE = {
  "C12-c": ("C12", "_repeat cuts its block in steps of the INPUT block length instead of the chunk size: needs a repeated axis whose length is not a multiple of the chunk size (partial last input chunk) -> blocks of the wrong length are written: broadcast silently (length 1), ValueError at compute, or truncated"),
  "C06-c": ("C06", "CubedArrayProxy.open() caches the opened array per proxy (dropped on pickling): needs an array that was computed in the client process and is then stored (to_zarr / store re-target the same proxy) with an in-process executor -> tasks write through the stale handle into the old intermediate array; the user's target keeps fill values; the processes executor is unaffected"),
  "C03-c": ("C03", "_rechunk sizes its extra_projected_mem from the largest TARGET chunk instead of the copy region: needs a rechunk whose copy region spans several store chunks (consolidated writes), a split along the last axis, the default compressor and Zarr's concurrent chunk encoding -> ~108 MB traced vs 99 MB projected; with compressor none or async.concurrency=1 there is no excess"),
+ "C20-c": ("C20", "Plan gets value equality (output names + node names) so that the lru_cache on _finalize hits, plus a cache_clear in _store_array: needs an array built in another process (fresh counters, so identical generated names), shipped in and finalized/computed ON ITS OWN after the receiving process has finalized its own same-named array -> the local array's cached finalized plan is executed: ArrayNotFoundError or, with a shared intermediate store, the local array's values"),
 }
 # seeds that were re-evaluated after strengthening: confirm.log holds the LATER run; what the first evaluation gave is recorded here
 FIRST = {
@@ -47,6 +48,7 @@ FIRST = {
  "C02-b": {"C02": {"exit": 0, "violation_lines": 0}},
  "C17-b": {"C17": {"exit": 0, "violation_lines": 0}, "C12": {"exit": 0, "violation_lines": 0}},
  "C05-c": {"C05": {"exit": 0, "violation_lines": 0}},
+ "C20-c": {"C20": {"exit": 0, "violation_lines": 0}},
  "C06-c": {"C06": {"exit": 0, "violation_lines": 0}},
  "C15-c": {"C15": "not run before strengthening (the report named the blind spot: patterns used distinct array names; miss by construction)"},
  "C12-a": {"C12": "not run before strengthening (no scenario could reach the change: miss by inspection)"},
